@@ -204,7 +204,9 @@ async def run_scenario(sc: dict, loop) -> dict:
         remaining[q] = {"simple": [m for m in snap["simple"]], "processing": list(snap["processing"]),
                         "dead": list(snap["dead"]), "delayed": [m for _, ms in snap["delayed"] for m in ms]}
     out["remaining"] = remaining
-    if runner is not None:
+    if runner is not None and not hasattr(runner, "_limiter"):
+        out["label"] = None          # the runner has no semaphore to label the events with: the run is judged by the oracle only
+    elif runner is not None:
         out["label"] = {"sem": id(runner._limiter), "stop": id(runner.stop_consume_event), "cancel": id(runner.cancel_event),
                         "processed": runner._tasks_processed,
                         "value": runner._limiter._value, "stop_set": runner.stop_consume_event.is_set(), "n_tasks": len(runner._tasks)}
@@ -222,6 +224,8 @@ def to_events(sc: dict, r: dict):
     last_done = None
     slow_pause = bool(sc.get("pause_round_trip"))
     pausing, fast_after_pause = set(), set()
+    unpausing = set()    # loops inside consumer.unpause() (a round trip): they hold a slot
+    r["slots_not_returned"] = 0
     holding = {}         # queue -> message its loop took last
     surplus = {}         # message being given back -> queue
     events = r["events"]
@@ -247,11 +251,17 @@ def to_events(sc: dict, r: dict):
                     problems.append("processing task created outside a loop task")
                     continue
                 holding.pop(q, None)
+                unpausing.discard(q)
                 evs.append(f"(EvSpawn {q})")
         elif k == "task_done" and e["qualname"] == "_Runner._process_with_event":
             last_done = proc_m.get(e["vid"])
         elif k == "task_cancel" and e["qualname"] == "_Runner._run_consumer":
             q = loop_q.get(e["vid"])
+            if q is not None and q in unpausing:
+                # cancelled inside an unpause() that is a round trip: the model's loop gives its slot back (EvCancelLoop on LHold),
+                # the code does not (the worker is stopping, nobody needs the slot any more): accounted for in final_obs
+                unpausing.discard(q)
+                r["slots_not_returned"] += 1
             if q is not None:
                 m = holding.get(q)
                 if m is not None and m not in surplus:
@@ -283,6 +293,7 @@ def to_events(sc: dict, r: dict):
                 evs.append(f"(EvPause {q})")      # pause() has returned, the limiter is still locked: the loop queues up now
         elif k == "sem_release" and e["sem"] == lab["sem"]:
             if e["tv"] in loop_q:
+                unpausing.discard(loop_q[e["tv"]])
                 surplus[holding.get(loop_q[e["tv"]])] = loop_q[e["tv"]]
                 evs.append(f"(EvSurplus {loop_q[e['tv']]})")
             elif last_done is not None:
@@ -298,6 +309,8 @@ def to_events(sc: dict, r: dict):
             else:
                 evs.append(f"(EvPause {int(e['queue'][1:])})")
         elif k == "unpause" and e["tq"] == "_Runner._run_consumer":
+            if slow_pause:
+                unpausing.add(int(e['queue'][1:]))
             if int(e['queue'][1:]) in fast_after_pause:
                 fast_after_pause.discard(int(e['queue'][1:]))
                 evs.append(f"(EvUnpauseHold {int(e['queue'][1:])})")
@@ -320,7 +333,7 @@ def final_obs(sc: dict, r: dict) -> list[int]:
     undisposed = {j["id"] for j in sc["jobs"] if j.get("cancelled") and j["id"] in {int(x) for x in r["starts"]}} if sc.get("jobs") else set()
     rem = sorted(i for i in (int(m.key.id_[1:]) for q in sc["queues"] for part in ("simple", "processing") for m in r["remaining"][q][part])
                  if i not in undisposed)
-    return [1, len(r["starts"]), lab["processed"], lab["value"], 1 if lab["stop_set"] else 0, lab["n_tasks"], len(rem)] + rem
+    return [1, len(r["starts"]), lab["processed"], lab["value"] + r.get("slots_not_returned", 0), 1 if lab["stop_set"] else 0, lab["n_tasks"], len(rem)] + rem
 
 
 def case_term(sc: dict, evs: list) -> str:
